@@ -50,6 +50,7 @@ func storeOpcodeSet(typ uintptr, set *OpcodeSet, m map[uintptr]*OpcodeSet) {
 	for k, v := range m {
 		newOpcodeMap[k] = v
 	}
+	verifYield("enc-cache:map-built")
 
 	atomic.StorePointer(&cachedOpcodeMap, *(*unsafe.Pointer)(unsafe.Pointer(&newOpcodeMap)))
 }
@@ -80,6 +81,7 @@ func getFilteredCodeSetIfNeeded(ctx *RuntimeContext, codeSet *OpcodeSet) (*Opcod
 	if cacheCodeSet != nil {
 		return cacheCodeSet, nil
 	}
+	verifYield("enc-query:miss")
 	queryCodeSet, err := newCompiler().codeToOpcodeSet(codeSet.Type, codeSet.Code.Filter(query))
 	if err != nil {
 		return nil, err
